@@ -22,8 +22,8 @@ STREAM = "stun_drv:hostile"
 # (init_request's result was ignored); VERIF_TINY_USAGE_CAPS=0 switches that stream off
 TINY_USAGE_CAPS = os.environ.get("VERIF_TINY_USAGE_CAPS", "1") == "1"
 # a validater table entry with an empty username makes stun_agent_default_validater call
-# memcmp (NULL, p, 0) for packets without USERNAME (reported defect); off until /repo carries a fix
-EMPTY_USERNAME = os.environ.get("VERIF_EMPTY_USERNAME", "0") == "1"
+# memcmp (NULL, p, 0) for packets without USERNAME before fix 64e9ec1; VERIF_EMPTY_USERNAME=0 switches it off
+EMPTY_USERNAME = os.environ.get("VERIF_EMPTY_USERNAME", "1") == "1"
 
 LAYOUTS = ["random", "header", "valid-prefix", "zeros", "attr-chain", "mi-last"]
 
